@@ -100,4 +100,313 @@ Proof.
   - destruct changed; reflexivity.
 Qed.
 
+(* ---- law 2, one entry: THIS = BASE --------------------------------------------- *)
+
+Ltac eqb_hyps :=
+  repeat match goal with
+         | H : bytes_eqb _ _ = true |- _ => apply bytes_eqb_spec17 in H
+         | H : Nat.eqb _ _ = true |- _ => apply Nat.eqb_eq in H
+         | H : Bool.eqb _ _ = true |- _ => apply Bool.eqb_prop in H
+         | H : kind_eqb _ _ = true |- _ => apply kind_eqb_spec in H
+         | H : opair_eqb _ _ = true |- _ => apply opair_eqb_spec in H
+         | H : opair_eqb _ _ = false |- _ => apply (spec_false _ opair_eqb_spec) in H
+         | H : oexec_eqb _ _ = true |- _ => apply oexec_eqb_spec in H
+         | H : oexec_eqb _ _ = false |- _ => apply (spec_false _ oexec_eqb_spec) in H
+         | H : oname_eqb _ _ = true |- _ => apply oname_eqb_spec in H
+         | H : oname_eqb _ _ = false |- _ => apply (spec_false _ oname_eqb_spec) in H
+         | H : opar_eqb _ _ = true |- _ => apply opar_eqb_spec in H
+         | H : opar_eqb _ _ = false |- _ => apply (spec_false _ opar_eqb_spec) in H
+         end.
+
+Lemma merge_entry_this_eq_base f thop ohtp changed b ls o :
+  lcas_agree b ls ->
+  (vpair b <> vpair o -> changed = true) ->
+  merge_entry tm lm f thop ohtp changed b ls o b = (o, []).
+Proof.
+  intros H Hch. unfold merge_entry, merge_names, merge_executable, do_merge_contents.
+  rewrite (res_three_way _ oname_eqb_spec vname), (res_three_way _ opar_eqb_spec vparent),
+          (res_three_way _ oexec_eqb_spec vexec), contents_winner_three_way by exact H.
+  rewrite !(tw_disjoint _ _ oname_eqb_spec _ _ _ (or_introl eq_refl)),
+          !(tw_disjoint _ _ opar_eqb_spec _ _ _ (or_introl eq_refl)),
+          !(tw_disjoint _ _ oexec_eqb_spec _ _ _ (or_introl eq_refl)),
+          !(tw_disjoint _ _ opair_eqb_spec _ _ _ (or_introl eq_refl)).
+  destruct (oname_eqb (vname b) (vname o)) eqn:En, (opar_eqb (vparent b) (vparent o)) eqn:Ep,
+           (oexec_eqb (vexec b) (vexec o)) eqn:Ex, (opair_eqb (vpair b) (vpair o)) eqn:Epair;
+    eqb_hyps;
+    try (rewrite (Hch Epair));
+    try (assert (Hr : (if changed then RUnmodified else RUnmodified) = RUnmodified)
+           by (destruct changed; reflexivity); rewrite Hr; clear Hr);
+    clear Hch;
+    destruct b as [[pb nb bb]|], o as [[po no bo]|]; simpl in *;
+    try discriminate; try congruence; try reflexivity;
+    repeat match goal with H : Some _ = Some _ |- _ => injection H as H end; subst;
+    try (destruct bb, bo; simpl in *; try discriminate; congruence);
+    try (destruct bo; simpl in *; congruence).
+Qed.
+
+(* ---- law 4 per attribute: an entry present on all three sides, each attribute changed by
+        at most one side: the result carries, attribute by attribute, the changed value ------- *)
+
+Lemma merge_entry_attrs f thop ohtp changed be oe te ls :
+  lcas_agree (Some be) ls ->
+  (vpair (Some be) <> vpair (Some oe) -> changed = true) ->
+  (vname (Some te) = vname (Some be) \/ vname (Some oe) = vname (Some be)) ->
+  (vparent (Some te) = vparent (Some be) \/ vparent (Some oe) = vparent (Some be)) ->
+  (vpair (Some te) = vpair (Some be) \/ vpair (Some oe) = vpair (Some be)) ->
+  (vexec (Some te) = vexec (Some be) \/ vexec (Some oe) = vexec (Some be)) ->
+  exists r,
+    merge_entry tm lm f thop ohtp changed (Some be) ls (Some oe) (Some te) = (Some r, []) /\
+    e_name r = (if bytes_eqb (e_name be) (e_name oe) then e_name te else e_name oe) /\
+    e_parent r = (if Nat.eqb (e_parent be) (e_parent oe) then e_parent te else e_parent oe) /\
+    vpair (Some r) = (if opair_eqb (vpair (Some be)) (vpair (Some oe)) then vpair (Some te) else vpair (Some oe)) /\
+    (kind_of (e_body r) = KFile ->
+     exec_of (e_body r) = if Bool.eqb (exec_of (e_body be)) (exec_of (e_body oe))
+                          then exec_of (e_body te) else exec_of (e_body oe)).
+Proof.
+  intros H Hch Hn Hp Hc Hx. unfold merge_entry, merge_names, merge_executable, do_merge_contents.
+  rewrite (res_three_way _ oname_eqb_spec vname), (res_three_way _ opar_eqb_spec vparent),
+          (res_three_way _ oexec_eqb_spec vexec), contents_winner_three_way by exact H.
+  rewrite !(tw_disjoint _ _ oname_eqb_spec _ _ _ Hn), !(tw_disjoint _ _ opar_eqb_spec _ _ _ Hp),
+          !(tw_disjoint _ _ oexec_eqb_spec _ _ _ Hx), !(tw_disjoint _ _ opair_eqb_spec _ _ _ Hc).
+  clear Hn Hp H.
+  destruct (opair_eqb (vpair (Some be)) (vpair (Some oe))) eqn:Epair;
+    eqb_hyps;
+    try (rewrite (Hch Epair));
+    try (assert (Hr : (if changed then RUnmodified else RUnmodified) = RUnmodified)
+           by (destruct changed; reflexivity); rewrite Hr; clear Hr);
+    clear Hch;
+    destruct be as [pb nb bb], oe as [po no bo], te as [pt nt bt]; simpl in *;
+    destruct (bytes_eqb nb no) eqn:En, (Nat.eqb pb po) eqn:Ep, (Bool.eqb (exec_of bb) (exec_of bo)) eqn:Ex;
+    simpl; eexists; (split; [reflexivity|]); simpl;
+    (split; [reflexivity|]); (split; [reflexivity|]);
+    destruct bb, bo, bt; simpl in *; eqb_hyps;
+    repeat match goal with
+           | H : _ \/ _ |- _ => destruct H
+           | H : Some _ = Some _ |- _ => injection H as H
+           end; subst; simpl in *;
+    try discriminate; try congruence; try (split; [reflexivity|]); try reflexivity; try congruence;
+    try (split; congruence).
+Qed.
+
+(* ---- _entries_lca's own decisions on law-shaped entries ------------------------------ *)
+
+Lemma lca_tw {A} (eqb : A -> A -> bool) (Hs : is_spec eqb) (v : option entry -> A) allow b ls o t :
+  (forall l, In l ls -> l = b) ->
+  lca_multi_way A eqb (v b, map v ls) (v o) (v t) allow = three_way A eqb (v b) (v o) (v t).
+Proof.
+  intros H. apply (lca_consistent_base A eqb Hs). intros x Hx.
+  apply in_map_iff in Hx as [l [<- Hl]]. rewrite (H l Hl). reflexivity.
+Qed.
+
+Lemma lca_decide_this_eq_base b ls o :
+  (forall l, In l ls -> l = b) ->
+  match lca_decide b ls o b with
+  | None => o = b
+  | Some c => vpair b <> vpair o -> c = true
+  end.
+Proof.
+  intros H. unfold lca_decide.
+  rewrite (lca_tw _ okind_eqb_spec vkind), (lca_tw _ opar_eqb_spec vparent), (lca_tw _ oname_eqb_spec vname),
+          (lca_tw _ obytes_eqb_spec vsha), (lca_tw _ oexec_eqb_spec vexec), (lca_tw _ obytes_eqb_spec vtarget)
+    by exact H.
+  rewrite (tw_disjoint _ _ okind_eqb_spec _ _ _ (or_introl eq_refl)),
+          (tw_disjoint _ _ opar_eqb_spec _ _ _ (or_introl eq_refl)),
+          (tw_disjoint _ _ oname_eqb_spec _ _ _ (or_introl eq_refl)),
+          !(tw_disjoint _ _ obytes_eqb_spec _ _ _ (or_introl eq_refl)),
+          (tw_disjoint _ _ oexec_eqb_spec _ _ _ (or_introl eq_refl)).
+  destruct b as [[pb nb bb]|], o as [[po no bo]|]; simpl;
+    try (destruct bb; simpl; congruence); try (destruct bo; simpl; congruence); try reflexivity.
+  destruct bb, bo; simpl; try congruence;
+    repeat match goal with
+           | |- context [Nat.eqb ?a ?b] => let E := fresh "E" in destruct (Nat.eqb a b) eqn:E
+           | |- context [bytes_eqb ?a ?b] => let E := fresh "E" in destruct (bytes_eqb a b) eqn:E
+           | |- context [Bool.eqb ?a ?b] => let E := fresh "E" in destruct (Bool.eqb a b) eqn:E
+           end; simpl; eqb_hyps; subst; try congruence;
+    try (intros Hne; exfalso; apply Hne; reflexivity).
+Qed.
+
+(* ---- whole trees ---------------------------------------------------------------------- *)
+
+(* three-way mode, or: there are LCA trees and each of them agrees with BASE on file id f *)
+Definition lcas_agree_at (B : tree) (Ls : list tree) (f : nat) : Prop :=
+  lm = false \/ (Ls <> [] /\ forall L, In L Ls -> L f = B f).
+
+(* InventoryEntry.is_unmodified (same last-changed revision) implies the entries are equal *)
+Definition unmod_sound (Ls : list tree) (O : tree) : Prop :=
+  forall f, unmod f = true -> exists L, In L Ls /\ L f = O f.
+
+Definition cs_of (U : list nat) (B : tree) (Ls : list tree) (O T : tree) (f : nat) : list conflict :=
+  match visit tm lm unmod U B Ls O T f with Some (_, cs) => cs | None => [] end.
+
+Lemma merge_tree_snd U B Ls O T :
+  snd (merge_tree tm lm unmod U B Ls O T) = flat_map (cs_of U B Ls O T) U.
+Proof. reflexivity. Qed.
+
+Lemma lcas_agree_of_at B Ls f :
+  lcas_agree_at B Ls f -> lcas_agree (B f) (map (fun L : tree => L f) Ls).
+Proof.
+  intros [H|[_ H]]; [left; exact H|right]. intros l Hl.
+  apply in_map_iff in Hl as [L [<- HL]]. apply H. exact HL.
+Qed.
+
+Lemma lcas_agree_nil b : lm = false -> lcas_agree b [].
+Proof. intros H. left. exact H. Qed.
+
+(* what happens to one file id: either it is not processed, or merge_entry runs on its entries *)
+Lemma visit_cases U B Ls O T f :
+  visit tm lm unmod U B Ls O T f = None \/
+  exists thop ohtp changed ls,
+    visit tm lm unmod U B Ls O T f = Some (merge_entry tm lm f thop ohtp changed (B f) ls (O f) (T f)) /\
+    (lcas_agree_at B Ls f -> lcas_agree (B f) ls).
+Proof.
+  unfold visit. destruct lm eqn:El.
+  - unfold entry_lca.
+    destruct (negb (existsb present (O f :: map (fun L : tree => L f) Ls))); [left; reflexivity|].
+    destruct (unmod f); [left; reflexivity|].
+    destruct (lca_decide _ _ _ _) as [c|]; [|left; reflexivity].
+    right. do 4 eexists. split; [reflexivity|]. apply lcas_agree_of_at.
+  - unfold entry3. destruct (oentry_eqb (B f) (O f)); [left; reflexivity|].
+    right. do 4 eexists. split; [reflexivity|]. intros _. left. exact El.
+Qed.
+
+Theorem law_other_eq_base U B Ls O T f :
+  lcas_agree_at B Ls f -> O f = B f ->
+  fst (merge_tree tm lm unmod U B Ls O T) f = T f /\ cs_of U B Ls O T f = [].
+Proof.
+  intros Ha Ho. unfold cs_of. simpl.
+  destruct (visit_cases U B Ls O T f) as [Hv|[thop [ohtp [ch [ls [Hv Hl]]]]]]; rewrite Hv.
+  - split; [destruct (existsb _ U); reflexivity|reflexivity].
+  - rewrite Ho, merge_entry_other_eq_base by (apply Hl; exact Ha).
+    split; [destruct (existsb _ U); reflexivity|reflexivity].
+Qed.
+
+Theorem law_identical U B Ls O T f :
+  lcas_agree_at B Ls f -> T f = O f ->
+  fst (merge_tree tm lm unmod U B Ls O T) f = T f /\ cs_of U B Ls O T f = [].
+Proof.
+  intros Ha Ho. unfold cs_of. simpl.
+  destruct (visit_cases U B Ls O T f) as [Hv|[thop [ohtp [ch [ls [Hv Hl]]]]]]; rewrite Hv.
+  - split; [destruct (existsb _ U); reflexivity|reflexivity].
+  - rewrite Ho, merge_entry_identical by (apply Hl; exact Ha).
+    split; [destruct (existsb _ U); reflexivity|reflexivity].
+Qed.
+
+Lemma existsb_eqb_In f U : existsb (Nat.eqb f) U = true <-> In f U.
+Proof.
+  rewrite existsb_exists. split.
+  - intros [x [Hx E]]. apply Nat.eqb_eq in E. subst. exact Hx.
+  - intros H. exists f. split; [exact H|apply Nat.eqb_refl].
+Qed.
+
+(* THIS = BASE at f: the processed entry becomes OTHER's, and an unprocessed one already equals it *)
+Lemma visit_this_eq_base U B Ls O T f :
+  lcas_agree_at B Ls f -> unmod_sound Ls O -> T f = B f ->
+  match visit tm lm unmod U B Ls O T f with
+  | None => O f = B f
+  | Some r => r = (O f, [])
+  end.
+Proof.
+  intros Ha Hu Ht. unfold visit. destruct lm eqn:El.
+  - destruct Ha as [Ha|[Hne Ha]]; [congruence|].
+    assert (Hls : forall l, In l (map (fun L : tree => L f) Ls) -> l = B f).
+    { intros l Hl. apply in_map_iff in Hl as [L [<- HL]]. apply Ha. exact HL. }
+    unfold entry_lca.
+    destruct (existsb present (O f :: map (fun L : tree => L f) Ls)) eqn:Ew; simpl.
+    + destruct (unmod f) eqn:Eu.
+      * destruct (Hu f Eu) as [L [HL E]]. rewrite <- E. apply Ha. exact HL.
+      * pose proof (lca_decide_this_eq_base (B f) _ (O f) Hls) as Hd. rewrite Ht.
+        destruct (lca_decide (B f) _ (O f) (B f)) as [c|]; [|exact Hd].
+        rewrite <- El. apply merge_entry_this_eq_base; [right; exact Hls|exact Hd].
+    + (* never walked: absent from OTHER and from every LCA, hence from BASE *)
+      simpl in Ew. apply orb_false_iff in Ew as [Eo El2].
+      destruct (O f); [discriminate|]. destruct Ls as [|L Ls']; [congruence|].
+      simpl in El2. apply orb_false_iff in El2 as [E1 _].
+      rewrite <- (Ha L (or_introl eq_refl)). destruct (L f); [discriminate|reflexivity].
+  - unfold entry3. destruct (oentry_eqb (B f) (O f)) eqn:E.
+    + apply oentry_eqb_spec in E. congruence.
+    + rewrite Ht. rewrite <- El. apply merge_entry_this_eq_base; [left; exact El|].
+      intros Hne. destruct (opair_eqb (vpair (B f)) (vpair (O f))) eqn:Ep; [|reflexivity].
+      apply opair_eqb_spec in Ep. contradiction.
+Qed.
+
+Theorem law_this_eq_base U B Ls O T f :
+  lcas_agree_at B Ls f -> unmod_sound Ls O -> T f = B f -> (In f U \/ O f = B f) ->
+  fst (merge_tree tm lm unmod U B Ls O T) f = O f /\ cs_of U B Ls O T f = [].
+Proof.
+  intros Ha Hu Ht Hin. unfold cs_of. simpl.
+  pose proof (visit_this_eq_base U B Ls O T f Ha Hu Ht) as Hv.
+  destruct (visit tm lm unmod U B Ls O T f) as [r|].
+  - subst r. split; [|reflexivity].
+    destruct (existsb (Nat.eqb f) U) eqn:E; [reflexivity|].
+    destruct Hin as [Hin|Hin]; [apply existsb_eqb_In in Hin; congruence|congruence].
+  - split; [|reflexivity]. destruct (existsb (Nat.eqb f) U); congruence.
+Qed.
+
+Lemma flat_map_nil {X Y} (g : X -> list Y) l : (forall x, In x l -> g x = []) -> flat_map g l = [].
+Proof.
+  induction l as [|x l IH]; simpl; intros H; [reflexivity|].
+  rewrite (H x) by auto. apply IH. intros y Hy. apply H. auto.
+Qed.
+
+Lemma In_or_eq U (O B : tree) f : (O f <> B f -> In f U) -> In f U \/ O f = B f.
+Proof.
+  intros H. destruct (oentry_eqb (O f) (B f)) eqn:E.
+  - right. apply oentry_eqb_spec. exact E.
+  - left. apply H. apply (spec_false _ oentry_eqb_spec). exact E.
+Qed.
+
+Theorem tree_other_eq_base U B Ls O T :
+  (forall f, lcas_agree_at B Ls f) -> (forall f, O f = B f) ->
+  (forall f, fst (merge_tree tm lm unmod U B Ls O T) f = T f) /\
+  snd (merge_tree tm lm unmod U B Ls O T) = [].
+Proof.
+  intros Ha Ho. split.
+  - intros f. apply law_other_eq_base; auto.
+  - rewrite merge_tree_snd. apply flat_map_nil. intros f _. apply law_other_eq_base; auto.
+Qed.
+
+Theorem tree_this_eq_base U B Ls O T :
+  (forall f, lcas_agree_at B Ls f) -> unmod_sound Ls O -> (forall f, T f = B f) ->
+  (forall f, O f <> B f -> In f U) ->
+  (forall f, fst (merge_tree tm lm unmod U B Ls O T) f = O f) /\
+  snd (merge_tree tm lm unmod U B Ls O T) = [].
+Proof.
+  intros Ha Hu Ht HU. split.
+  - intros f. apply law_this_eq_base; auto. apply In_or_eq, HU.
+  - rewrite merge_tree_snd. apply flat_map_nil. intros f Hf. apply law_this_eq_base; auto.
+Qed.
+
+Theorem tree_identical U B Ls O T :
+  (forall f, lcas_agree_at B Ls f) -> (forall f, T f = O f) ->
+  (forall f, fst (merge_tree tm lm unmod U B Ls O T) f = T f) /\
+  snd (merge_tree tm lm unmod U B Ls O T) = [].
+Proof.
+  intros Ha Ho. split.
+  - intros f. apply law_identical; auto.
+  - rewrite merge_tree_snd. apply flat_map_nil. intros f _. apply law_identical; auto.
+Qed.
+
+(* the union of the two sides' changes *)
+Definition union_tree (B O T : tree) : tree :=
+  fun f => if oentry_eqb (O f) (B f) then T f else O f.
+
+Theorem tree_disjoint_union U B Ls O T :
+  (forall f, lcas_agree_at B Ls f) -> unmod_sound Ls O ->
+  (forall f, T f = B f \/ O f = B f) ->
+  (forall f, O f <> B f -> In f U) ->
+  (forall f, fst (merge_tree tm lm unmod U B Ls O T) f = union_tree B O T f) /\
+  snd (merge_tree tm lm unmod U B Ls O T) = [].
+Proof.
+  intros Ha Hu Hd HU. split.
+  - intros f. unfold union_tree. destruct (oentry_eqb (O f) (B f)) eqn:E.
+    + apply oentry_eqb_spec in E. apply law_other_eq_base; auto.
+    + destruct (Hd f) as [Ht|Ho].
+      * apply law_this_eq_base; auto. apply In_or_eq, HU.
+      * rewrite Ho, (spec_refl _ oentry_eqb_spec) in E. discriminate.
+  - rewrite merge_tree_snd. apply flat_map_nil. intros f Hf.
+    destruct (Hd f) as [Ht|Ho].
+    + apply law_this_eq_base; auto.
+    + apply law_other_eq_base; auto.
+Qed.
+
 End Laws.
